@@ -249,15 +249,40 @@ func c17Marshal(c *Ctx, p *Prog, m *Model) {
 			}
 		}
 	}
-	// does MarshalJSON emit quote bytes itself?
-	for _, b := range mj.Blocks {
-		for _, in := range b.Instrs {
-			if st, ok := in.(*ssa.Store); ok {
-				if v, ok := constInt(st.Val); ok && v == '"' {
-					quotes = true
+	// quote bytes put around the name by hand are not quoting: a title holding a quote, a backslash or a control
+	// character then gives invalid JSON (RegisterLevel accepts any title)
+	handQuoted := false
+	if !quotes {
+		for _, b := range mj.Blocks {
+			for _, in := range b.Instrs {
+				if st, ok := in.(*ssa.Store); ok {
+					if v, ok := constInt(st.Val); ok && v == '"' {
+						handQuoted = true
+					}
+				}
+				if bo, ok := in.(*ssa.BinOp); ok && bo.Op == token.ADD {
+					for _, o := range []ssa.Value{bo.X, bo.Y} {
+						if s, ok := constString(o); ok && strings.Contains(s, "\"") {
+							handQuoted = true
+						}
+					}
+				}
+				if call, ok := in.(*ssa.Call); ok && isBuiltinCall(call, "append") {
+					for _, a := range call.Common().Args[1:] {
+						if v, ok := constInt(a); ok && v == '"' {
+							handQuoted = true
+						}
+						if s, ok := constString(a); ok && strings.Contains(s, "\"") {
+							handQuoted = true
+						}
+					}
 				}
 			}
 		}
+	}
+	if handQuoted {
+		r.Bad("R17.2", "json-quoting", p.FuncPos(mj), "MarshalJSON wraps the name in quote characters by hand instead of quoting it (strconv.Quote, %%q, json.Marshal): a registered title that holds a quote, a backslash or a control character marshals to invalid JSON and does not unmarshal to the level")
+		quotes = true
 	}
 	unq := false
 	var unqCall ssa.CallInstruction
